@@ -1,0 +1,24 @@
+//go:build verif && linux
+// +build verif,linux
+
+package netstate
+
+import (
+	"context"
+
+	"github.com/jsimonetti/rtnetlink"
+)
+
+// NewWatcherFromSource creates a Watcher for the deterministic simulator in
+// /verif whose operating system event source is src: every batch of rtnetlink
+// messages passed to emit is processed and delivered to subscribers exactly as
+// messages received from the kernel would be. It only exists when the "verif"
+// build tag is set.
+func NewWatcherFromSource(src func(ctx context.Context, emit func(msgs []rtnetlink.Message)) error) *Watcher {
+	w := NewWatcher()
+	w.watch = func(ctx context.Context, notify func(changeSet)) error {
+		return src(ctx, func(msgs []rtnetlink.Message) { notify(process(msgs)) })
+	}
+
+	return w
+}
